@@ -165,6 +165,12 @@ func ExecRound(dir string, prevRoot []byte, rd Round) (root []byte, dead []strin
 				return nil, nil, fmt.Errorf("HARNESS: round %d txn %d merge: %w", rd.Version, ti, e)
 			}
 			tm.Cache().Commit()
+			if (rd.Version+int64(ti))%3 == 1 {
+				// the pending dead set is looked at between transactions as well (a monitoring read); only the one taken
+				// after the last transaction is recorded
+				_ = block.GetDeletes()
+				_, _, _, _ = block.GetChanges()
+			}
 		}
 	}
 	root = append([]byte(nil), block.GetRoot()...)
